@@ -20,7 +20,7 @@ theorem even_generation_is_complete (a : Ann) (ha : a.adequate = true)
     (s : Sys) (hr : Reachable a (Sys.init ver gen cells0) s)
     (e : Nat) (m : SL.Msg) (hm : s.log[e]? = some m) (hgen : m.loc = .gen) (hev : m.val % 2 = 0) (hnz : m.val ≠ 0) :
     pubCells s.log e = cells0 ∨ pubCells s.log e ∈ s.written := by
-  sorry
+  exact (reachable_inv hc hg hr).log.pub e m hm hgen hev hnz
 
 /-- Reader side, precise form: when a `snapshot` attempt is accepted and fewer than 32767 updates
     completed between the generation message it started from (`g1Idx`) and the message its re-check
@@ -34,7 +34,8 @@ theorem accept_consistent (a : Ann) (ha : a.adequate = true)
     (hnowrap : evenGenBetween s.log s.r.g1Idx (load s.log s.r.view .gen a.rGen2 pm).2.1 < 32767) :
     assemble got = pubCells s.log s.r.g1Idx ∧
     (∃ m, s.log[s.r.g1Idx]? = some m ∧ m.loc = .gen ∧ m.val = g1 ∧ g1 % 2 = 0 ∧ g1 ≠ 0) := by
-  sorry
+  have hI := reachable_inv hc hg hr
+  exact accept_core hI.log hc ha (hI.rd ha) hpc pm hacc hnowrap
 
 /-- C02 for histories with fewer than 32767 completed updates (no 16-bit wrap can bite): every record
     ever returned is the empty initial record, the pre-existing record or one passed to `write`. -/
@@ -43,7 +44,7 @@ theorem no_mixture (a : Ann) (ha : a.adequate = true)
     (s : Sys) (hr : Reachable a (Sys.init ver gen cells0) s)
     (hnowrap : completedUpdates s.log < 32767) :
     ∀ c ∈ s.returned, Good cells0 s c := by
-  sorry
+  exact (reachable_cinv_few hc hg ha hr hnowrap).ret
 
 /-- C02 in general: as long as every accepted attempt had fewer than 32767 completed updates between
     its two generation reads (stated as a hypothesis on every reachable predecessor state). -/
@@ -54,7 +55,7 @@ theorem no_mixture_general (a : Ann) (ha : a.adequate = true)
         t.r.pc = .gen2 g1 retries got → (load t.log t.r.view .gen a.rGen2 pm).1 = g1 →
         evenGenBetween t.log t.r.g1Idx (load t.log t.r.view .gen a.rGen2 pm).2.1 < 32767) :
     ∀ c ∈ s.returned, Good cells0 s c := by
-  sorry
+  exact (reachable_cinv_general hc hg ha hnowrap hr).ret
 
 /-- the unfenced code (the tree before the repair) is NOT adequate, and neither is a relaxed re-check -/
 example : ({ wFence := none, rFence := none } : Ann).adequate = false := by decide
